@@ -214,6 +214,8 @@ class World:
                     if not any((isinstance(d, ast.Name) and d.id == "staticmethod") for d in st.decorator_list):
                         f.self_obj = base
                     return f
+        if (base.sort, attr) in getattr(self, "known_methods", ()):
+            return VFunc("method", attr, recv=base)
         raise OutOfSubset(f"unmodelled attribute {base.sort}.{attr}")
 
     def sort_class_node(self, sort):
